@@ -6,6 +6,7 @@
 import Driver.Proto
 import Lace.Spec.ISA
 import Lace.Model.VM
+import Driver.CmdProto
 open Lace Lace.Driver
 
 /-- `X02 stackOn minimal instr <machine> inp-hex`
@@ -26,9 +27,31 @@ def handleX02 (toks : List String) : String :=
     | _, _, _, _ => "bad-request"
   | _ => "bad-request"
 
+/-- `L14 <hex line>`: `Command::try_from` on one line. -/
+def handleL14 (toks : List String) : String :=
+  match toks with
+  | [line] =>
+    match parseText line with
+    | some line => "M " ++ renderOutcome (Cmd.parseLine line)
+    | none => "bad-request"
+  | _ => "bad-request"
+
+/-- `R14 <N | hex argument> <hex stdin>`: every command `read_from` yields until end of input. -/
+def handleR14 (toks : List String) : String :=
+  match toks with
+  | [arg, inp] =>
+    let arg? : Option (Option (List Char)) := if arg == "N" then some none else (parseText arg).map some
+    match arg?, parseBytes inp with
+    | some arg, some inp =>
+      "M " ++ runSession (Cmd.Reader.from arg (inp.map UInt8.ofNat)) #[]
+    | _, _ => "bad-request"
+  | _ => "bad-request"
+
 def handle (line : String) : String :=
   match line.trimAscii.toString.splitOn " " with
   | "X02" :: rest => handleX02 rest
+  | "L14" :: rest => handleL14 rest
+  | "R14" :: rest => handleR14 rest
   | _ => "bad-request"
 
 partial def loop (h : IO.FS.Stream) (out : IO.FS.Stream) : IO Unit := do
